@@ -28,6 +28,9 @@ def main():
             cov = None
     try:
         if spec.get('mode') == 'replay':
+            if prop in ('C01', 'C04', 'C08', 'C09'):
+                from . import exec_prog
+                exec_prog.prior_runs()  # the workload shards of these checks start with this history; a replay gets it too
             mod.replay(spec, acc)
         else:
             mod.run_shard(spec, acc)
@@ -54,7 +57,8 @@ def main():
                     executable = cov.analysis2(f)[1]
                 except Exception:  # pylint: disable=broad-except
                     executable = []
-                reach[os.path.relpath(f, core.REPO_SRC)] = {'executed': sorted(data.lines(f) or []), 'executable': len(executable)}
+                # count statements only (the monitoring core also reports continuation lines of multi-line statements)
+                reach[os.path.relpath(f, core.REPO_SRC)] = {'executed': sorted(set(data.lines(f) or []) & set(executable)), 'executable': len(executable)}
             res['reach'] = reach
         except Exception:  # pylint: disable=broad-except
             pass
